@@ -158,14 +158,53 @@ def closure_in_array_escape(v):
         for x in walk(F["body"]):
             if x.get("t") == "assign" and x["e"].get("t") == "fn":
                 fnnames.add(x["tgt"]["n"])
-        # a list inside F (outside the inner literals' own bodies is not required) that holds a capturing literal or a name bound to one
-        for x in walk(F["body"]):
-            if x.get("t") == "list":
-                for yv in walk(x):
-                    if yv.get("t") == "fn" and any(yv is g for g, _ in caps):
-                        return True
-                    if yv.get("t") == "name" and yv["n"] in fnnames:
-                        return True
+        # ... and the array can leave F: a value that may carry the closure (the array itself, a variable bound to it, a concatenation, an
+        # element or slice of it, the result of a call that was given it) is what F evaluates to, returns or yields.  An array of closures
+        # that stays inside F -- even if F hands it to callees and calls the closures itself -- is not this finding.
+        capset = [g for g, _ in caps]
+        carriers = set()
+
+        def carrier(e):
+            t = e.get("t")
+            if t == "list":
+                return any((x.get("t") == "fn" and any(x is g for g in capset)) or (x.get("t") == "name" and x["n"] in fnnames) or carrier(x) for x in e["e"])
+            if t == "name":
+                return e["n"] in carriers
+            if t == "bin":
+                return e["op"] == "+" and (carrier(e["l"]) or carrier(e["r"]))
+            if t == "ix1":
+                return carrier(e["a"])
+            if t == "ix2":
+                return carrier(e["a"])
+            if t == "call":
+                return any(carrier(a) for a in e["args"])
+            if t in ("if", "ifelse"):
+                return carrier(e["th"]) or (t == "ifelse" and carrier(e["el"]))
+            if t == "block":
+                return bool(e["ss"]) and carrier(e["ss"][-1])
+            if t == "assign":
+                return carrier(e["e"])
+            return False
+        changed = True
+        while changed:
+            changed = False
+            for x in walk(F["body"]):
+                if x.get("t") == "assign" and x["tgt"]["n"] not in carriers and carrier(x["e"]):
+                    carriers.add(x["tgt"]["n"])
+                    changed = True
+                if x.get("t") == "for":
+                    for vn, itx in zip(x["vars"], x["iters"]):
+                        if vn["n"] not in carriers and carrier(itx):
+                            carriers.add(vn["n"])
+                            changed = True
+        outs = [F["body"]] + [x["e"] for x in walk(F["body"]) if x.get("t") in ("ret", "yield")]
+        tails = []
+        for o in outs:
+            while o.get("t") == "block" and o["ss"]:
+                o = o["ss"][-1]
+            tails.append(o)
+        if any(carrier(o) for o in tails):
+            return True
     return False
 
 
